@@ -300,9 +300,9 @@ pub fn check_builder_state(ctx: &mut Ctx, st: &BuilderState) -> Result<(), Viola
 pub fn run(cfg: &Cfg) -> i32 {
     let report = engine::run_shards(cfg, |shard, ctx, seedf| {
         common::golden(cfg, shard, ctx, &check_step)?;
-        common::histories(ctx, seedf(1), cfg.per_shard(40_000, 800_000), 4, 40, None, &check_step)?;
+        common::histories(ctx, seedf(1), cfg.per_shard(400_000, 6_000_000), 4, 40, None, &check_step)?;
         let strat = proptest::collection::vec(any::<u16>(), 300);
-        engine::pbt(ctx, seedf(2), cfg.per_shard(200_000, 4_000_000), &strat, |ctx, tape: &Vec<u16>| {
+        engine::pbt(ctx, seedf(2), cfg.per_shard(2_000_000, 30_000_000), &strat, |ctx, tape: &Vec<u16>| {
             let st = builder_state(&mut Tape::new(tape));
             check_builder_state(ctx, &st)
         })?;
